@@ -100,4 +100,15 @@ def pkToCurve (pk : Bytes) : Outcome Bytes :=
 def fromBytes (bs : Bytes) : Outcome (Bytes × Bytes) :=
   if bs.length < 64 then .err else .ok (bs.take 64, bs.drop 64)
 
+/-- `SignedMessage::to_bytes` / `to_vec` (/repo/src/sign.rs): a buffer of
+`signature.len() + message.len()` bytes, the signature copied to `[..64]`, the message to
+`[64..]`.  The signature type is `ByteArray<64>`, so in Rust `signature.len() = 64` always;
+for a pair whose first component is not 64 bytes long the Rust function has no counterpart
+(`copy_from_slice` would panic) and this model simply concatenates. -/
+def toBytes (sm : Bytes × Bytes) : Bytes := sm.1 ++ sm.2
+
+/-- `SignedMessage::verify(public_key)` = `crypto_sign_verify_detached(signature, message, pk)` -/
+def verifyMessage (H : Bytes → Bytes) (sm : Bytes × Bytes) (pk : Bytes) : Bool :=
+  verifyDetached H sm.1 sm.2 pk false
+
 end DryocVerif.Model.Sign
